@@ -189,6 +189,7 @@ class XyeEngine(Engine):
             "fresh_process": rng.random() < 0.3,
             "layout": rng.choice(["plain", "plain", "slice", "strided"]),
             "units_as": rng.choice(["str", "Unit"]),
+            "coord_order": rng.randrange(1, 1 << 20) if rng.random() < 0.4 else 0,
             "unaligned": [nm for nm in names if rng.random() < 0.5] if rng.random() < 0.25 else [],
             "faults": {"mode": "none"},
         }
@@ -248,6 +249,12 @@ class XyeEngine(Engine):
             if c["edges"]:
                 v = np.concatenate([v, [v[-1] + 1.0]])
             coords[nm] = layouts.embed(sc.array(dims=[dim], values=v, unit=c["unit"]), dim, how)
+        if scn.get("coord_order"):
+            import random as _r
+
+            keys = list(coords)
+            _r.Random(scn["coord_order"]).shuffle(keys)
+            coords = {k: coords[k] for k in keys}
         da = sc.DataArray(data, coords=coords)
         for nm in scn.get("unaligned") or []:
             # what transform_coords / slicing leave behind: still a coordinate of the data
